@@ -314,7 +314,7 @@ func main() {
 		h := mc.H(c.q.Uncompressed(), c.digest, c.r.Bytes(), c.s.Bytes())
 		R.State(h)
 		R.NT(h)
-		if m := runCase(c.q, c.digest, c.r, c.s, vs, dHex); m != "" {
+		if m := mc.Safe(func() string { return runCase(c.q, c.digest, c.r, c.s, vs, dHex) }); m != "" {
 			R.Mismatch("verify/"+c.cls, "case", m, mc.D{"q": lib.PtHex(c.q), "digest": mc.Hex(c.digest), "r": c.r.Text(16), "s": c.s.Text(16), "vs": vs, "d": dHex, "class": cls})
 		}
 		if R.WantSample(c.cls) {
